@@ -434,6 +434,62 @@ func c09RunEarlierMaps(order []string) explore.Result {
 	return res
 }
 
+// c09RunFormats: a Bind carrying k result-format codes for a statement of n columns (k < n, k > n included): if the
+// library accepts the Bind, every field of the DataRow decodes, in the format the portal's RowDescription announces
+// for its column, to the value written. Columns may carry a type modifier (varchar(n)): the value is not touched.
+func c09RunFormats(rf []int16, typmod int32) explore.Result {
+	var res explore.Result
+	res.Outcome = "values"
+	res.Key = fmt.Sprint("formats", rf, typmod)
+	vals := []any{int32(258), "żółć 日本語", int32(-7), "plain"}
+	wantS := []string{"int:258", "text:żółć 日本語", "int:-7", "text:plain"}
+	cols := wire.Columns{{Name: "a", Oid: 23}, {Name: "b", Oid: 1043, TypeModifier: typmod}, {Name: "c", Oid: 23}, {Name: "d", Oid: 25}}
+	parse := func(ctx context.Context, q string) (wire.PreparedStatements, error) {
+		return wire.Prepared(wire.NewStatement(func(ctx context.Context, w wire.DataWriter, p []wire.Parameter) error {
+			if err := w.Row(vals); err != nil {
+				return err
+			}
+			return w.Complete("SELECT 1")
+		}, wire.WithColumns(cols))), nil
+	}
+	one, err := harness.StartOne(parse)
+	if err != nil {
+		res.Engine = err.Error()
+		return res
+	}
+	defer one.Stop()
+	one.Step(pgproto.Startup("user", "u"))
+	out, _ := one.Step(pgproto.Cat(pgproto.Parse("", "q"), pgproto.Bind("", "", nil, nil, rf), pgproto.Describe('P', ""), pgproto.Execute("", 0), pgproto.Sync()))
+	ms, perr := pgproto.ParseBackend(out)
+	if perr != nil {
+		res.Fail("reply-grammar", perr.Error())
+		return res
+	}
+	var t, d *pgproto.BMsg
+	for i := range ms {
+		switch ms[i].Type {
+		case 'T':
+			t = &ms[i]
+		case 'D':
+			d = &ms[i]
+		}
+	}
+	if t == nil || d == nil {
+		return res // (the Bind or the row was refused: nothing was delivered in a wrong format)
+	}
+	for i := range cols {
+		if i >= len(d.Row) || i >= len(t.Cols) {
+			res.Fail("datarow-count", fmt.Sprintf("result-format codes %v: RowDescription has %d fields, DataRow %d, the statement 4 columns", rf, len(t.Cols), len(d.Row)))
+			break
+		}
+		got, derr := pgproto.DecodeValue(uint32(cols[i].Oid), t.Cols[i].Format, d.Row[i])
+		if derr != nil || got != wantS[i] {
+			res.Fail("value-mismatch", fmt.Sprintf("result-format codes %v (type modifier of column b: %d): column %d is announced in format %d, its field %.30q decodes to %q (%v), the handler wrote %v", rf, typmod, i, t.Cols[i].Format, d.Row[i], got, derr, vals[i]))
+		}
+	}
+	return res
+}
+
 // c09RunThenEnds: a handler writes rows and then ends WITHOUT completing: it fails, or simply returns. "Any row a
 // handler writes arrives as one DataRow": every row whose Row call returned nil is on the wire before the
 // ErrorResponse / the end of the cycle. Also a statement with no columns at all: its rows are DataRows of 0 fields.
@@ -782,6 +838,15 @@ func c09Enumerate(tier string, emit explore.Emit) {
 		order := order
 		emit(explore.Case{Family: "earlier-connection-type-map", Size: 3, Desc: func() any { return map[string]any{"connections_one_after_the_other": order} },
 			Run: func() explore.Result { return c09RunEarlierMaps(order) }})
+	}
+	for _, typmod := range []int32{0, -1, 8, 12, 20} {
+		for _, rf := range [][]int16{nil, {0}, {1}, {1, 0}, {1, 1}, {0, 1}, {1, 0, 1}, {1, 1, 1}, {1, 0, 1, 0}, {1, 1, 1, 1}, {1, 1, 1, 1, 1}} {
+			typmod, rf := typmod, rf
+			emit(explore.Case{Family: "row-limit", Size: 5, Desc: func() any {
+				return map[string]any{"columns": 4, "result_format_codes": rf, "type_modifier_of_the_varchar_column": typmod}
+			},
+				Run: func() explore.Result { return c09RunFormats(rf, typmod) }})
+		}
 	}
 	for _, ncols := range []int{0, 1, 2} {
 		for _, rows := range []int{1, 3, 14} {
